@@ -383,3 +383,56 @@ def fam_spath(seed, shard, nshards, n):
         v = d[tgt]
         exp = 'inf' if np.isinf(v) else str(int(v))
         yield (f'spath {enc_grid(s.grid)} {src[0]} {src[1]} {tgt[0]} {tgt[1]}', exp, 'spath-' + ('inf' if exp == 'inf' else 'fin'))
+
+
+def real_trans_scripted(atoms, state, action, answers):
+    from harness.recrng import ScriptRng
+
+    rng = ScriptRng(answers)
+    fns = _trans_fns()
+    try:
+        s = fast_copy(state)
+        for i in atoms:
+            fns[i](s, action, rng=rng)
+        out = enc_state(s) + ' | ' + rng.log_str()
+    except Exception as e:
+        out = enc_exc(e)
+    return out
+
+
+def fam_stochastic_scripted(seed, shard, nshards, n):
+    """complete support: every answer vector on small obstacle / telepod layouts, replayed on the
+    implementation through a scripted generator and on the model through the same answers"""
+    import itertools as itt
+    from harness.codec import dec_obj
+
+    rng = random.Random(f'script-{seed}-{shard}')
+    for k in range(n // nshards):
+        h, w = rng.randint(1, 3), rng.randint(1, 4)
+        cells = {}
+        for i in range(h):
+            for j in range(w):
+                cells[(i, j)] = 'F' if rng.random() < 0.6 else rng.choice(['W', 'K1', 'E0', 'D01'])
+        pos = [(i, j) for i in range(h) for j in range(w)]
+        rng.shuffle(pos)
+        if k % 2 == 0:
+            nobs = rng.randint(1, min(3, len(pos)))
+            for p in pos[:nobs]:
+                cells[p] = 'O'
+            y, x = rng.choice(pos)
+            s = gen.mk_state(h, w, cells, y, x, rng.choice(ORIENTS))
+            for ans in itt.product(range(4), repeat=nobs):
+                a = ACTIONS[0]
+                out = real_trans_scripted([3], s, a, list(ans))
+                yield trans_line([3], s, a, list(ans)), out, 'scripted-obstacles'
+        else:
+            ntel = rng.randint(1, min(4, len(pos)))
+            c = rng.randint(1, 2)
+            for p in pos[:ntel]:
+                cells[p] = f'T{c if rng.random() < 0.8 else 3}'
+            y, x = pos[0] if rng.random() < 0.8 else rng.choice(pos)
+            s = gen.mk_state(h, w, cells, y, x, rng.choice(ORIENTS))
+            for ans in range(ntel + 1):
+                a = ACTIONS[rng.randrange(8)]
+                out = real_trans_scripted([6], s, a, [ans])
+                yield trans_line([6], s, a, [ans]), out, 'scripted-teleport'
